@@ -394,8 +394,9 @@ def value_check(case):
         if not np.array_equal(got[:, -1], raw[:, -1].astype(np.float32)):
             v.append(("values:sync-scaled", "sync column is not left unscaled"))
         s2 = np.asarray(sr.sample2volts, dtype=float)
-        if s2.shape[0] != nc or not np.allclose(s2, np.array(s2v), rtol=1e-6, atol=0):
-            v.append(("sample2volts", "sample2volts %r != range/maxint/gain %r (on-disk order)" % (s2.tolist(), s2v)))
+        # the statement does not fix the order of this public vector: on-disk order (as now) or the reader's column order are both accepted
+        if s2.shape[0] != nc or not (np.allclose(s2, np.array(s2v), rtol=1e-6, atol=0) or np.allclose(s2, np.array(s2v)[np.asarray(order)], rtol=1e-6, atol=0)):
+            v.append(("sample2volts", "sample2volts %r != range/maxint/gain %r (in on-disk or in reader order)" % (s2.tolist(), s2v)))
     finally:
         sr.close()
     return Res(v, o=case[0], tr=1)
